@@ -9,10 +9,10 @@ pub fn prop() -> Prop {
     Prop {
         id: "C14",
         level: "model_checking",
-        rule: "unbounded input = every prefix of <=2 (thorough <=4) values over a 5-value alphabet (qualifying object, scalar, empty split, duplicate rows, non-qualifying object) followed by an endless counter stream of qualifying distinct objects (two kinds: every split item qualifies / every array ends in an item that --filter drops and --unique has seen), served byte by byte with every byte pulled counted; T in 0..5, S in 0..3 (and (S,T) around 255/256/1000 for 6 option sets) x every subset of {--set, --split-by, --filter, --select, --unique, --only-objects-and-arrays}; horizon 64 KiB; FIFO (file path) variant for a subset; non-trivial = T>=1 and the T-th row is not produced by the last value of the prefix; distinct by construction",
+        rule: "unbounded input = every prefix of <=2 (thorough <=4) values over a 5-value alphabet (qualifying object, scalar, empty split, duplicate rows, non-qualifying object) followed by an endless counter stream of qualifying distinct objects (five kinds: every split item qualifies / every array ends in / starts with an item that --filter drops and --unique has seen; values separated by line breaks / by blanks only), served byte by byte with every byte pulled counted; T in 0..5, S in 0..3 (and (S,T) around 255/256/1000 for 6 option sets) x every subset of {--set, --split-by, --filter, --select, --unique, --only-objects-and-arrays}; horizon 64 KiB; FIFO (file path) variant for a subset; non-trivial = T>=1 and the T-th row is not produced by the last value of the prefix; distinct by construction",
         explanation: "a step-wise reference pipeline says which input value produces row S+T and where that value ends; jawk must return Ok with exactly rows S..S+T, must not reach the horizon, and must not pull more than 16 bytes past that value (stdin) / one pipe + BufReader capacity (file)",
         assumptions: COMMON_ASSUMPTIONS.to_vec(),
-        guards: vec!["hundreds-of-rows-before-the-stop", "tail-arrays-end-in-a-dropped-item", "stopped-inside-endless-tail", "stopped-inside-prefix", "take-zero", "split-stops-mid-array", "unique-drops-before-limit", "fifo"],
+        guards: vec!["stop-decision-from-the-last-item-of-an-array", "endless-part-without-line-breaks", "hundreds-of-rows-before-the-stop", "tail-arrays-end-in-a-dropped-item", "stopped-inside-endless-tail", "stopped-inside-prefix", "take-zero", "split-stops-mid-array", "unique-drops-before-limit", "fifo"],
         budget_s: (100, 1200),
         single_worker: false,
         run,
@@ -36,13 +36,16 @@ fn alphabet() -> Vec<&'static str> {
 /// kind 0: every array item qualifies; kind 1: every array ends in an item that the filter drops
 /// and --unique has seen before (so the stop decision has to come from an item that is not the last)
 fn counter_tail_kind(kind: usize) -> Vec<u8> {
+    // kinds 3 and 4 are kinds 0 and 2 without any line break in the endless part (values separated by blanks)
+    let sep = if kind >= 3 { " " } else { "\n" };
     let mut s = String::new();
     let mut i = 1u64;
     while s.len() < HORIZON + 4096 {
-        if kind == 0 {
-            s.push_str(&format!("{{\"i\":{i},\"l\":[{},{}]}}\n", 1000 + 2 * i, 1001 + 2 * i));
-        } else {
-            s.push_str(&format!("{{\"i\":{i},\"l\":[{},8]}}\n", 1000 + i));
+        match kind {
+            0 | 3 => s.push_str(&format!("{{\"i\":{i},\"l\":[{},{}]}}{sep}", 1000 + 2 * i, 1001 + 2 * i)),
+            1 => s.push_str(&format!("{{\"i\":{i},\"l\":[{},8]}}{sep}", 1000 + i)),
+            // the dropped item first, the qualifying one LAST (the stop decision comes from the last item of an array)
+            _ => s.push_str(&format!("{{\"i\":{i},\"l\":[8,{}]}}{sep}", 1000 + i)),
         }
         i += 1;
     }
@@ -175,10 +178,16 @@ fn run(ctx: &mut Ctx) {
     let mut prefixes: Vec<Vec<usize>> = Vec::new();
     crate::explore::seqs_upto(alpha.len(), maxp, |i| prefixes.push(i.to_vec()));
     let (tmax, smax) = (5usize, 3usize);
-    let tail1 = counter_tail_kind(1);
-    let tail1_vals: Vec<(V, usize)> = json::parse_stream(&tail1[..tail1.iter().rposition(|b| *b == b'\n').unwrap() + 1]).unwrap().into_iter().map(|s| (s.v, s.end)).collect();
-    for tk in 0..2usize {
-    let (tail, tail_vals) = if tk == 0 { (&tail, &tail_vals) } else { (&tail1, &tail1_vals) };
+    let more_tails: Vec<(Vec<u8>, Vec<(V, usize)>)> = (1..5usize)
+        .map(|k| {
+            let t = counter_tail_kind(k);
+            let cut = t.iter().rposition(|b| *b == b'\n' || *b == b' ').unwrap() + 1;
+            let vals = json::parse_stream(&t[..cut]).unwrap().into_iter().map(|s| (s.v, s.end)).collect();
+            (t, vals)
+        })
+        .collect();
+    for tk in 0..5usize {
+    let (tail, tail_vals) = if tk == 0 { (&tail, &tail_vals) } else { (&more_tails[tk - 1].0, &more_tails[tk - 1].1) };
     for pidx in &prefixes {
         // prefix text: values separated by single spaces, trailing newline
         let mut ptxt = String::new();
@@ -200,11 +209,17 @@ fn run(ctx: &mut Ctx) {
                 continue;
             }
             let o = Opts::from_mask(mask);
-            if tk == 1 && !o.split {
-                continue; // without --split-by the two tails are the same stream of qualifying objects
+            if (tk == 1 || tk == 2 || tk == 4) && !o.split {
+                continue; // without --split-by these tails are the same stream of qualifying objects
             }
             if tk == 1 {
                 ctx.guard("tail-arrays-end-in-a-dropped-item");
+            }
+            if tk == 2 || tk == 4 {
+                ctx.guard("stop-decision-from-the-last-item-of-an-array");
+            }
+            if tk >= 3 {
+                ctx.guard("endless-part-without-line-breaks");
             }
             for s in 0..=smax {
                 for t in 0..=tmax {
